@@ -482,21 +482,22 @@ def c13_jobs(tier):
     def add(cont, shape, pb, flavour, shards, w):
         for i in range(shards):
             jobs.append(Job("%s-%s-s%d-pb%d-%d" % (flavour, cont, shape, pb, i), H, [cont, shape, pb, i, shards], flavour=flavour,
-                            wraps=SCHED_WRAPS, nosan=["sched/sched.c"], weight=w))
+                            wraps=SCHED_WRAPS, nosan=["sched/sched.c"], weight=w, env={"VC_PIN": "1"}))
     for cont in C13_CONTAINERS:
         add(cont, 11, 3 if X else 2, "asan", 1, 1)
         add(cont, 21, 3 if X else 2, "asan", 4 if X else 2, 6)
         add(cont, 11, 2, "tsan", 1, 2)
         add(cont, 21, 2, "tsan", 3, 10)
+        add(cont, 111, 2, "asan", 4 if X else 2, 20)
         if X:
             add(cont, 22, 2, "asan", 8, 40)
-            add(cont, 111, 2, "asan", 4, 20)
+            add(cont, 111, 2, "tsan", 4, 30)
     return jobs
 
 
 @prop("C13", "model_checking",
       "for each thread-safe container (vector, list, queue, stack, tree table, hash table with one shared chain, list table "
-      "plain and UNIQUE): every 2-thread client program with <= 2 operations in one thread and 1 in the other over an "
+      "plain and UNIQUE): every 2-thread client program with <= 2 operations in one thread and 1 in the other and every 3-thread program with 1 operation each, over an "
       "alphabet of 6-12 operations on shared keys/positions (insert/put new and existing, copying get, remove/pop, clear, "
       "toarray/tostring, lock;walk;unlock) from 2 initial states (thorough: <= 2 operations per thread and all 3-thread "
       "1-operation programs); for every program every schedule with <= 2 preemptions (thorough 3 for 1-op programs) at the "
